@@ -19,6 +19,11 @@
    insert / __getitem__ / __setitem__ / __delitem__ / __len__ exactly as
    CPython's Lib/_collections_abc.py (3.12) does.
 
+   REPAIRS.  Each defect that has a candidate repair is controlled by one
+   boolean of the record [fixes] (false = the pinned code, true = the repaired
+   code).  The harness probes the implementation and instantiates the flags,
+   so the same model follows the code before and after each `fix:` commit.
+
    Segment length is UNINTERPRETED: [len_of d t] is "what a fresh segment with
    control data d answers to length(error, min_depth) = t".  Numbers live in an
    abstract carrier V with the operations the code applies to them
@@ -36,8 +41,21 @@ Definition kind_eqb (a b : kind) : bool :=
 
 Inductive exn := IndexError | ValueError | RuntimeError | BugException | AssertionError.
 
+(* one flag per repaired behaviour; false = pinned code *)
+Record fixes := mkFx {
+  fx_setter : bool;   (* start/end setters reset _length *)
+  fx_calc : bool;     (* _calc_lengths remembers the tolerance it computed with *)
+  fx_cubic : bool;    (* CubicBezier reuse test: cached.error <= error (used by the instances' tol_reuse) *)
+  fx_arc : bool;      (* Arc length cache keyed by (hash, error, min_depth) *)
+  fx_hash : bool;     (* Path.__hash__ no longer depends on _closed *)
+  fx_slice : bool;    (* __setitem__ handles the emptied path like __delitem__ *)
+  fx_rev : bool }.    (* reversed() copies the cache entry only when it is current, as a new dict *)
+Definition fx_pinned : fixes := mkFx false false false false false false false.
+Definition fx_all : fixes := mkFx true true true true true true true.
+
 Section Model.
   Context {pt pay tol V : Type}.
+  Variable fx : fixes.
   (* Python `==` on points (complex) and on the remaining constructor
      arguments; `not z` (None is handled by option, z == 0 by pt_falsy) *)
   Variable pt_eqb : pt -> pt -> bool.
@@ -46,6 +64,8 @@ Section Model.
   (* CubicBezier.length: `_length_info['error'] >= error and
      _length_info['min_depth'] >= min_depth`; first argument = cached *)
   Variable tol_reuse : tol -> tol -> bool.
+  (* `==` on (error, min_depth) pairs: only the repaired code compares them *)
+  Variable tol_eqb : tol -> tol -> bool.
   (* (LENGTH_ERROR, LENGTH_MIN_DEPTH): what point / T2t pass to _calc_lengths *)
   Variable t_def : tol.
 
@@ -90,7 +110,8 @@ Section Model.
         end
     | KArc =>
         match scache g with
-        | Some c => if sdata_eqb (ckey c) (sd g) then (g, cval c) else compute g t
+        | Some c => if sdata_eqb (ckey c) (sd g) && (negb (fx_arc fx) || tol_eqb (ctol c) t)
+                    then (g, cval c) else compute g t
         | None => compute g t
         end
     end.
@@ -100,6 +121,7 @@ Section Model.
     segs : list seg;            (* _segments *)
     plength : option V;         (* _length *)
     plengths : list V;          (* _lengths (only read after _calc_lengths) *)
+    ptol : option tol;          (* _length_tol: what _length was computed with (only read by the repaired code) *)
     pstart : option pt;         (* _start *)
     pend : option pt;           (* _end *)
     pclosed : bool }.           (* _closed *)
@@ -110,9 +132,9 @@ Section Model.
   Definition last_end (l : list seg) : option pt := option_map (fun g => send (sd g)) (last_error l).
 
   (* Path of the segments l; parse_path additionally sets _closed *)
-  Definition fresh (l : list seg) : state := mkSt l None [] (first_start l) (last_end l) false.
+  Definition fresh (l : list seg) : state := mkSt l None [] None (first_start l) (last_end l) false.
   Definition fresh_closed (l : list seg) (c : bool) : state :=
-    mkSt l None [] (first_start l) (last_end l) c.
+    mkSt l None [] None (first_start l) (last_end l) c.
 
   Inductive result :=
   | ROk
@@ -151,12 +173,14 @@ Section Model.
         self._end = self._segments[-1].end                                   *)
   Definition after_set (s : state) (l : list seg) : state * result :=
     match first_start l with
-    | None => (mkSt l None (plengths s) (pstart s) (pend s) (pclosed s), RErr IndexError)
-    | Some z => (mkSt l None (plengths s) (Some z) (last_end l) (pclosed s), ROk)
+    | None => if fx_slice fx
+              then (mkSt l None (plengths s) (ptol s) None None (pclosed s), ROk)    (* repaired: as __delitem__ *)
+              else (mkSt l None (plengths s) (ptol s) (pstart s) (pend s) (pclosed s), RErr IndexError)
+    | Some z => (mkSt l None (plengths s) (ptol s) (Some z) (last_end l) (pclosed s), ROk)
     end.
   (* the tail of __delitem__ *)
   Definition after_del (s : state) (l : list seg) : state :=
-    mkSt l None (plengths s) (first_start l) (last_end l) (pclosed s).
+    mkSt l None (plengths s) (ptol s) (first_start l) (last_end l) (pclosed s).
 
   Definition setitem (s : state) (i : Z) (g : seg) : state * result :=
     match norm_index (length (segs s)) i with
@@ -232,9 +256,15 @@ Section Model.
     | Some k => delitem s (Z.of_nat k)
     end.
   (* start.setter:  self._start = pt ; if len(self._segments)>0: self._segments[0].start = pt *)
+  (* repaired: ... ; self._length = None   inside the `if` *)
+  Definition setter_length (s : state) : option V :=
+    match segs s with
+    | [] => plength s
+    | _ => if fx_setter fx then None else plength s
+    end.
   Definition set_start (s : state) (z : pt) : state * result :=
     (mkSt (match segs s with [] => [] | g :: r => with_start g z :: r end)
-          (plength s) (plengths s) (Some z) (pend s) (pclosed s), ROk).
+          (setter_length s) (plengths s) (ptol s) (Some z) (pend s) (pclosed s), ROk).
   Fixpoint map_last {A} (f : A -> A) (l : list A) : list A :=
     match l with
     | [] => []
@@ -243,7 +273,7 @@ Section Model.
     end.
   Definition set_end (s : state) (z : pt) : state * result :=
     (mkSt (map_last (fun g => with_end g z) (segs s))
-          (plength s) (plengths s) (pstart s) (Some z) (pclosed s), ROk).
+          (setter_length s) (plengths s) (ptol s) (pstart s) (Some z) (pclosed s), ROk).
 
   Inductive op :=
   | SetItem (i : Z) (g : seg)
@@ -281,13 +311,18 @@ Section Model.
     let total := vsum vals in
     if v_eqb total vzero then vals else map (fun v => vdiv v total) vals.
 
+  Definition fill_lengths (t : tol) (s : state) : state :=
+    let r := map (fun g => seg_length g t) (segs s) in
+    let vals := map snd r in
+    mkSt (map fst r) (Some (vsum vals)) (fractions vals) (Some t) (pstart s) (pend s) (pclosed s).
+  Definition tol_is (o : option tol) (t : tol) : bool :=
+    match o with Some t' => tol_eqb t' t | None => false end.
+  (* pinned:    if self._length is not None: return
+     repaired:  if self._length is not None and self._length_tol == (error, min_depth): return *)
   Definition calc_lengths (t : tol) (s : state) : state :=
     match plength s with
-    | Some _ => s                                          (* whatever tolerance it was for *)
-    | None =>
-        let r := map (fun g => seg_length g t) (segs s) in
-        let vals := map snd r in
-        mkSt (map fst r) (Some (vsum vals)) (fractions vals) (pstart s) (pend s) (pclosed s)
+    | Some _ => if fx_calc fx && negb (tol_is (ptol s) t) then fill_lengths t s else s
+    | None => fill_lengths t s
     end.
 
   Inductive value :=
@@ -308,36 +343,63 @@ Section Model.
   Definition start_prop (s : state) : state * option pt :=
     if is_falsy (pstart s) then
       match first_start (segs s) with
-      | Some z => (mkSt (segs s) (plength s) (plengths s) (Some z) (pend s) (pclosed s), Some z)
+      | Some z => (mkSt (segs s) (plength s) (plengths s) (ptol s) (Some z) (pend s) (pclosed s), Some z)
       | None => (s, pstart s)
       end
     else (s, pstart s).
   Definition end_prop (s : state) : state * option pt :=
     if is_falsy (pend s) then
       match last_end (segs s) with
-      | Some z => (mkSt (segs s) (plength s) (plengths s) (pstart s) (Some z) (pclosed s), Some z)
+      | Some z => (mkSt (segs s) (plength s) (plengths s) (ptol s) (pstart s) (Some z) (pclosed s), Some z)
       | None => (s, pend s)
       end
     else (s, pend s).
 
-  Fixpoint point_loop (sds : list sdata) (fr : list V) (acc pos : V) : value :=
+  (* Path._last_nonzero_length_index:
+       for idx in reversed(range(len(self._lengths))):
+           if self._lengths[idx] > 0: return idx
+       return len(self._lengths) - 1                                          *)
+  Fixpoint last_nonzero_from (fr : list V) (i : Z) (acc : option Z) : option Z :=
+    match fr with
+    | [] => acc
+    | f :: r => last_nonzero_from r (i + 1) (if negb (v_geb vzero f) then Some i else acc)
+    end.
+  Definition last_nonzero_index (fr : list V) : Z :=
+    match last_nonzero_from fr 0 None with
+    | Some i => i
+    | None => Z.of_nat (length fr) - 1
+    end.
+  (* Path.point, after the shortcuts; when the loop falls through:
+       if 0 <= pos <= 1: return self._segments[self._last_nonzero_length_index()].point(1.0)
+       raise RuntimeError                                                      *)
+  Fixpoint point_loop (all : list sdata) (allfr : list V) (sds : list sdata) (fr : list V) (acc pos : V) : value :=
     match sds with
-    | [] => VErr RuntimeError
+    | [] =>
+        if v_geb pos vzero && v_geb vone pos then
+          match norm_index (length all) (last_nonzero_index allfr) with
+          | Some k => match nth_error all k with Some d => VSegT d vone | None => VErr IndexError end
+          | None => VErr IndexError
+          end
+        else VErr RuntimeError
     | d :: r =>
         match fr with
         | [] => VErr IndexError
         | f :: fr' =>
             let e := vadd acc f in
             if v_geb e pos then VSegT d (vdiv (vsub pos acc) (vsub e acc))
-            else point_loop r fr' e pos
+            else point_loop all allfr r fr' e pos
         end
     end.
-  Fixpoint t2t_loop (fr : list V) (idx : Z) (T0 T : V) : value :=
+  (* Path.T2t, after the shortcuts:   t = min((T - T0)/seg_length, 1.0);  when the loop falls
+     through:  assert 0 <= T <= 1;  return self._last_nonzero_length_index(), 1 *)
+  Definition vmin1 (x : V) : V := if v_geb vone x then x else vone.     (* min(x, 1.0) *)
+  Fixpoint t2t_loop (allfr : list V) (fr : list V) (idx : Z) (T0 T : V) : value :=
     match fr with
-    | [] => if v_geb T vzero && v_geb vone T then VErr BugException else VErr AssertionError
+    | [] => if v_geb T vzero && v_geb vone T then VIdxT (last_nonzero_index allfr) vone
+            else VErr AssertionError
     | f :: r =>
         let T1 := vadd T0 f in
-        if v_geb T1 T then VIdxT idx (vdiv (vsub T T0) f) else t2t_loop r (idx + 1) T1 T
+        if v_geb T1 T then VIdxT idx (vmin1 (vdiv (vsub T T0) f)) else t2t_loop allfr r (idx + 1) T1 T
     end.
   Definition sds (s : state) : list sdata := map sd (segs s).
   Fixpoint iscontinuous (l : list sdata) : bool :=
@@ -384,14 +446,14 @@ Section Model.
             if v_eqb pos vzero then (s, VSegT d0 pos)
             else if v_eqb pos vone then (s, VSegT (last (sds s) d0) pos)
             else let s' := calc_lengths t_def s in
-                 (s', point_loop (sds s') (plengths s') vzero pos)
+                 (s', point_loop (sds s') (plengths s') (sds s') (plengths s') vzero pos)
         end
     | QT2t T =>
         if v_eqb T vone then (s, VIdxT (Z.of_nat (length (segs s)) - 1) vone)
         else if v_eqb T vzero then (s, VIdxT 0 vzero)
-        else let s' := calc_lengths t_def s in (s', t2t_loop (plengths s') 0 vzero T)
+        else let s' := calc_lengths t_def s in (s', t2t_loop (plengths s') (plengths s') 0 vzero T)
     | QEq other => (s, VBool (sds_eqb (sds s) other))
-    | QHash => (s, VHash (sds s) (pclosed s))
+    | QHash => (s, VHash (sds s) (if fx_hash fx then false else pclosed s))
     | QD uca =>
         match segs s with
         | [] => (s, VD false [])
@@ -441,14 +503,24 @@ End Model.
    what later calls write into the shared dict is not followed further. *)
 Section Reversed.
   Context {pt pay tol V : Type}.
+  Variable fx : fixes.
+  Variable pt_eqb : pt -> pt -> bool.
+  Variable pay_eqb : pay -> pay -> bool.
   Variable rev_data : @sdata pt pay -> @sdata pt pay.
   Variable v_truthy : V -> bool.
+  (* repaired:  if self._length_info['length'] and self._length_info['bpoints'] == self.bpoints():
+                    new._length_info = dict(self._length_info); new._length_info['bpoints'] = new.bpoints()
+     the original keeps its own dict untouched *)
   Definition seg_reversed (g : @seg pt pay tol V) : @seg pt pay tol V * @seg pt pay tol V :=
     match scache g with
     | Some c =>
         if v_truthy (cval c) then
           let c' := mkCE (rev_data (sd g)) (ctol c) (cval c) in
-          (mkSeg (sd g) (Some c'), mkSeg (rev_data (sd g)) (Some c'))
+          if fx_rev fx then
+            if sdata_eqb pt_eqb pay_eqb (ckey c) (sd g)
+            then (g, mkSeg (rev_data (sd g)) (Some c'))
+            else (g, fresh_seg (rev_data (sd g)))
+          else (mkSeg (sd g) (Some c'), mkSeg (rev_data (sd g)) (Some c'))
         else (g, fresh_seg (rev_data (sd g)))
     | None => (g, fresh_seg (rev_data (sd g)))
     end.
